@@ -812,6 +812,13 @@ ENTRIES += [
 ]
 
 ENTRIES += [
+    # ---------------------------------------------------------------- rules prompted by the twelfth seeding round
+    M("S12-eval-while-stale-policy-state", "C19", "C19.5", ("lerax/benchmark/__init__.py", "            next_env_state,\n            next_policy_state,\n            carry_key,\n            cumulative_reward + reward,", "            next_env_state,\n            policy_state,\n            carry_key,\n            cumulative_reward + reward,")),
+    M("S12-rollout-row-post-step-policy-state", ["C09", "C04", "C08"], ["C09.5", "C04.7", "C08.8"], (ONP, "                states=state.policy_state,", "                states=next_policy_state,")),
+    M("S12-action-layer-mask-categorical-only", ["C04", "C16"], ["C04.14", "C16.2"], (PA, "        if action_mask is not None and isinstance(dist, AbstractMaskableDistribution):", "        if action_mask is not None and isinstance(dist, Categorical):"), error_ok=True),
+]
+
+ENTRIES += [
     # ---------------------------------------------------------------- later additions
     M("C15-sac-bounds-swapped", "C15", "C15.3", (PS, "                high=self.action_space.high,\n                low=self.action_space.low,\n            )\n        else:", "                high=self.action_space.low,\n                low=self.action_space.high,\n            )\n        else:")),
     M("C13-flatten-wrong-size", "C13", "C13.5", (WTO, "shape=(int(jnp.asarray(self.env.observation_space.flat_size)),)", "shape=(int(jnp.asarray(self.env.action_space.flat_size)),)")),
